@@ -4,7 +4,7 @@ CONSTANTS
   N = 3
   Loops <- LoopsOne
   MaxDepth = 3
-  MaxTries = 2
+  MaxTries = 3
   Faulty = FALSE
   Extra = 0
   Reparse = TRUE
